@@ -28,9 +28,11 @@ def freeze(v, memo=None):
     return v
 
 
-def model_run(forms, strategy, machine=None, with_out=False):
+def model_run(forms, strategy, machine=None, with_out=False, libs=None, stdlib=True):
     """[(kind, value_or_errkind, trace, out)] per form; raises OutOfModel"""
-    m = machine or Machine(strategy)
+    m = machine or Machine(strategy, stdlib=stdlib)
+    for l in (libs or []):
+        m.register_library(l)
     res = []
     for f in forms:
         m.trace = []; m.out = []
@@ -81,12 +83,12 @@ def safe_text(v):
         return repr(v)
 
 
-def compare_history(forms, steps, check_alias=False, check_out=False, strategies=None):
+def compare_history(forms, steps, check_alias=False, check_out=False, strategies=None, libs=None, stdlib=True):
     """returns ('ok', strategy) | ('oom', None) | ('fuel', None) | ('mismatch', detail)"""
     first = None
     for st in (strategies or all_strategies()):
         try:
-            exp = model_run(forms, st)
+            exp = model_run(forms, st, libs=libs, stdlib=stdlib)
         except OutOfModel:
             return ("oom", None)
         bad = None
